@@ -170,6 +170,43 @@ def r_nan_reject(rep, f):
 
 
 # ------------------------------------------------------------------------------------------ R-GUARD-UNDERFLOW / R-BUDGET
+def exits_with(main, n, variant):
+    """the true edge of `if` n leaves the main loop with Status::<variant>: directly (`{ status = V; break }`), or deferred
+    through an Option<Status> local (`let abort = if C { Some(V) } else ..; if let Some(r) = abort { status = r; break }`)"""
+    if n.get("k") != "If":
+        return False
+    is_v = lambda z: z.get("k") == "Path" and z.get("def") == "status::Status::" + variant
+    if tast.contains(n["then"], is_v) and tast.contains(n["then"], lambda z: z.get("k") == "Break"):
+        return True
+    # deferred: the then-arm's value is Some(V) and n sits in the initialiser of a local whose Some-payload is stored as the
+    # status on a breaking path
+    t = n["then"]
+    while t is not None and t.get("k") == "Block" and not t.get("stmts"):
+        t = t.get("tail") if t.get("tail") is not None else t.get("expr")
+    if not (t is not None and t.get("k") == "Call" and (t.get("def") or "").endswith("Some") and t["args"] and is_v(t["args"][0])):
+        return False
+    for lt in tast.find(main, lambda z: z.get("k") == "Let" and z["pat"].get("k") == "PBind" and z.get("init") is not None and tast.contains(z["init"], lambda q: q is n)):
+        lid = lt["pat"]["id"]
+        # every arm of the chain that produces a value produces an Option: only the tail position of nested ifs
+        for use in tast.find(main, lambda z: z.get("k") in ("If", "Match")):
+            src = use["cond"]["init"] if use.get("k") == "If" and use["cond"].get("k") == "LetExpr" else (use.get("scrut") if use.get("k") == "Match" else None)
+            if src is None or not (src.get("k") == "Path" and src.get("id") == lid):
+                continue
+            if use.get("k") == "If":
+                pat, br = use["cond"]["pat"], use["then"]
+                arms = [(pat, br)]
+            else:
+                arms = [(a["pat"], a["body"]) for a in use.get("arms", [])]
+            for pat, br in arms:
+                if not (pat.get("ctor_of") or pat.get("def") or "").endswith("Some"):
+                    continue
+                binds = {q["id"] for q in tast.find(pat, lambda q: q.get("k") == "PBind")}
+                stores = tast.contains(br, lambda z: z.get("k") == "Assign" and "Status" in (z["l"].get("ty") or "Status") and tast.contains(z["r"], lambda q: q.get("k") == "Path" and q.get("id") in binds))
+                if stores and tast.contains(br, lambda z: z.get("k") == "Break"):
+                    return True
+    return False
+
+
 class GuardMon(mon.Monitor):
     """(underflow guard passed, budget consumed, bounded retry counter bumped) within the current iteration"""
     init = ((False, False, False),)
@@ -177,10 +214,13 @@ class GuardMon(mon.Monitor):
     def __init__(self, fn, main, retry_ids, nmax_guard):
         super().__init__()
         self.fn, self.main, self.retry_ids, self.nmax_guard = fn, main, retry_ids, nmax_guard
+        self._ug = {}
 
     def is_underflow_guard(self, n):
-        return n.get("k") == "If" and tast.contains(n["then"], lambda z: z.get("k") == "Path" and z.get("def") == "status::Status::StepSizeTooSmall") \
-            and tast.contains(n["then"], lambda z: z.get("k") == "Break")
+        k = id(n)
+        if k not in self._ug:
+            self._ug[k] = exits_with(self.main, n, "StepSizeTooSmall")
+        return self._ug[k]
 
     def step(self, st, ev):
         kind, n = ev[0], ev[1]
@@ -189,6 +229,14 @@ class GuardMon(mon.Monitor):
             return ((False, False, False),)
         if kind == "else" and self.is_underflow_guard(n):
             return ((True, b, r),)
+        if kind == "then" and n.get("k") == "If" and not tast.contains(n["then"], lambda z: z.get("k") == "Break"):
+            # the true edge of a deferred exit (`Some(status)` picked up by a later `if let .. { status = ..; break }`) leaves
+            # the loop: no cycle continues from here
+            kk = ("d", id(n))
+            if kk not in self._ug:
+                self._ug[kk] = any(exits_with(self.main, n, v) for v in ("NeedLargerNMax", "StepSizeTooSmall", "ProbablyStiff", "SingularMatrix", "UserInterrupt"))
+            if self._ug[kk]:
+                return ()
         if kind == "else" and is_solout_iflet(n):
             return ()
         if kind == "node" and n.get("k") == "AssignOp" and n["op"].startswith("Add"):
@@ -478,8 +526,7 @@ def r_guards(rep, f, include_rk4=False):
         # the budget test itself: Steps::total compared with the local read from max_steps; true edge -> NeedLargerNMax and exit
         tests = tast.find(main, lambda z: z.get("k") == "If" and z["cond"].get("k") == "Binary" and z["cond"]["op"] in ("Gt", "Ge")
                           and tast.contains(z["cond"]["l"], lambda q: q.get("k") == "Field" and (q.get("fdef") or "") == "methods::Steps::total")
-                          and tast.contains(z["then"], lambda q: q.get("k") == "Path" and q.get("def") == "status::Status::NeedLargerNMax")
-                          and tast.contains(z["then"], lambda q: q.get("k") == "Break"))
+                          and exits_with(main, z, "NeedLargerNMax"))
         if len(tests) == 1:
             bm = BudgetOrderMon(fn, main, tests, "ivp::IVP::ode")
             mon.Runner(bm).run_fn(body)
